@@ -1,6 +1,7 @@
 import BoboVerif.Model.IdGen
 import BoboVerif.Gen.IdGen
 import BoboVerif.Lemmas.IdFmt
+import BoboVerif.Gen.Locks
 /-!
 C16 — Generated identifiers never repeat.
 
@@ -90,5 +91,14 @@ theorem ids_distinct_str (urn : Option String) (s : St) (ts : List Int) :
   List.Pairwise.map _ (fun _ _ hne h => hne (fmt_injective h).2) (ids_distinct s ts)
 
 example : (run step init [10, 10, 9, 10]).map (fmt (some "u")) = ["u_10_0", "u_10_1", "u_10_2", "u_10_3"] := by decide
+
+/-- **`generate()` is one atomic step for any number of calling threads**: the generator's remembered second and
+counter (and every other field of a lock-owning class written after construction) are read and written only with the
+object's own lock held — the table of exceptions generated from the source (translate/locks.py, following the call
+graph from every thread role's entry point with the set of held locks) is empty.  With `ids_distinct` this is the
+"from any number of threads" clause: concurrent calls are serialised by the lock, so the identifiers they get are those
+of SOME sequential run of `step` over the clock readings taken inside the lock. -/
+theorem generator_fields_under_lock :
+    Bobo.Gen.Locks.unlockedAccesses.filter (fun r => r.1 == "BoboGenEventIDUnique") = [] := by decide
 
 end Bobo.IdGen
